@@ -58,7 +58,14 @@ func (packer *MessagePacker) ChunkAndWrite(writer io.Writer, csid int, typeid ui
 	if bodyLen <= LocalChunkSize {
 		// 如果一个chunk就够放（大部分信令都是这种情况），我们直接在buffer前面预留的空间写入chunk header内容，避免造成拷贝
 		writeSingleChunkHeader(packer.b.Bytes(), csid, bodyLen, typeid, streamid)
-		_, err := packer.b.WriteTo(writer)
+		// The writer may keep the slice it is given: once a ServerSession has answered play / publish its
+		// connection queues writes for a goroutine of its own, and this buffer is refilled by the next message
+		// long before a slow peer has been sent the previous one.  Hand over bytes that nobody else touches, as
+		// the multi-chunk path below does.
+		msg := make([]byte, packer.b.Len())
+		copy(msg, packer.b.Bytes())
+		packer.b.Reset()
+		_, err := writer.Write(msg)
 		return err
 	}
 
